@@ -61,11 +61,12 @@ ASSUMPTIONS = [
     "the adaptive table is given the function and the resolution (high-low)/(npt-1); its base point is any point of parameter space (the docstring only says 'a point in the underlying grid') or the default None",
 ]
 REQUIRED = {
+    "box-int-dtype": 0.1, "box-int-dtype-fractional-h": 0.06,
     "kind-values": 0.2, "kind-gradient": 0.2, "query-history": 0.15, "same-array-modified-in-place": 0.12,
     "same-array-unmodified": 0.06, "hist-interp-after-modify": 0.08, "hist-grad-after-modify": 0.04, "f-linear": 0.2, "f-multilinear": 0.2,
     "d1": 0.08, "d2": 0.15, "d3": 0.15, "d4": 0.05,
     "pt-upper-face": 0.2, "pt-lower-face": 0.2, "pt-node": 0.2, "pt-interior": 0.3,
-    "multi-batch": 0.3, "repeat-query": 0.15, "box-float": 0.25, "box-dyadic": 0.25,
+    "multi-batch": 0.3, "repeat-query": 0.15, "box-float": 0.2, "box-dyadic": 0.25,
     "adaptive-base-low": 0.07, "adaptive-base-interior": 0.08, "adaptive-base-upper": 0.07, "adaptive-base-shift": 0.07,
     "adaptive-base-free": 0.07, "adaptive-base-default": 0.003, "adaptive-query-below-base": 0.25,
     "adaptive-query-both-sides": 0.15,
@@ -88,9 +89,18 @@ _coef = st.one_of(st.integers(-5, 5).map(float), st.floats(-5.0, 5.0, allow_nan=
 def _spec(draw):
     kind = draw(st.sampled_from(["values", "gradient"]))
     d = draw(st.sampled_from([1, 2, 2, 3, 3, 4]))
-    dyadic = draw(st.booleans())
-    low = [draw(_dyadic_low if dyadic else _float_low) for _ in range(d)]
-    width = [draw(_dyadic_width if dyadic else _float_width) for _ in range(d)]
+    boxkind = draw(st.sampled_from(["dyadic", "float", "float", "int", "int"]))
+    dyadic = boxkind != "float"
+    if boxkind == "int":
+        # integer corners (so that integer-dtype arrays can carry them); the mesh size is mostly not an integer
+        low = [float(draw(st.integers(-4, 4))) for _ in range(d)]
+        width = [float(draw(st.integers(1, 8))) for _ in range(d)]
+    else:
+        low = [draw(_dyadic_low if dyadic else _float_low) for _ in range(d)]
+        width = [draw(_dyadic_width if dyadic else _float_width) for _ in range(d)]
+    dtypes = {"box": draw(st.sampled_from(["float64", "int64", "int64", "int32"])),
+              "npt": draw(st.sampled_from(["int64", "int32"])),
+              "base": draw(st.sampled_from(["float64", "int64"]))}
     npt = [draw(st.integers(2, 6 if d < 4 else 4)) for _ in range(d)]
     linear = draw(st.booleans())
     coef = []
@@ -139,7 +149,7 @@ def _spec(draw):
     nb = draw(st.integers(1, 3))
     batches = [draw(st.lists(st.integers(0, npool - 1), min_size=1, max_size=6)) for _ in range(nb)]
     return {"kind": kind, "d": d, "low": low, "width": width, "npt": npt, "coef": coef, "pool": pool,
-            "batches": batches, "abase": abase}
+            "batches": batches, "abase": abase, "dtypes": dtypes}
 
 
 @st.composite
@@ -347,17 +357,35 @@ def check(s):
     def func(*args):
         return _f(coef, args)
 
-    table = pp.InterpolationTable(low.copy(), high.copy(), npt.copy(), func)
+    dts = s.get("dtypes") or {"box": "float64", "npt": "int64", "base": "float64"}
+
+    def cast(a, dt):
+        """The same numbers in another dtype - only if that dtype represents them exactly."""
+        b = np.asarray(a).astype(dt)
+        return b if np.array_equal(b.astype(float), np.asarray(a, dtype=float)) else np.asarray(a).copy()
+
+    low_a, high_a, npt_a = cast(low, dts["box"]), cast(high, dts["box"]), cast(npt, dts["npt"])
+    dtype_labels = []
+    if low_a.dtype.kind == "i" and high_a.dtype.kind == "i":
+        dtype_labels.append("box-int-dtype")
+        if np.any(h != np.round(h)):
+            dtype_labels.append("box-int-dtype-fractional-h")
+    elif low_a.dtype == np.float32:
+        dtype_labels.append("box-float32-dtype")
+    table = pp.InterpolationTable(low_a, high_a, npt_a, func)
     base = _adaptive_base(s)
     if base is None:
         adaptive = pp.AdaptiveInterpolationTable(dx=h.copy(), function=func, dim=1)
         base_eff = np.zeros(d)
     else:
-        adaptive = pp.AdaptiveInterpolationTable(dx=h.copy(), base_point=base.copy(), function=func, dim=1)
+        base_a = cast(base, dts["base"])
+        if base_a.dtype.kind == "i":
+            dtype_labels.append("adaptive-base-int-dtype")
+        adaptive = pp.AdaptiveInterpolationTable(dx=h.copy(), base_point=base_a, function=func, dim=1)
         base_eff = base
 
     pts = _pool_points(s)
-    labels = [f"kind-{s['kind']}", f"d{d}", "f-linear" if linear else "f-multilinear"]
+    labels = [f"kind-{s['kind']}", f"d{d}", "f-linear" if linear else "f-multilinear"] + dtype_labels
     amode = (s.get("abase") or {"mode": "low"})["mode"]
     if amode == "node":
         ks = s["abase"]["k"]
